@@ -26,7 +26,8 @@ def run_case(case, taps='all'):
     if mode == 'src':
         return M.run_src(case['pipe'], case['src'], complete=case.get('complete', True),
                          timescale=case.get('timescale'), taps=taps, root=case.get('root', 'store'),
-                         dl_late=case.get('dl_late', False), source=case.get('source', 'subject'))
+                         dl_late=case.get('dl_late', False), source=case.get('source', 'subject'),
+                         sibling=case.get('sibling', False))
     raise C.MachineryError('unknown mode %r' % mode)
 
 
@@ -171,7 +172,7 @@ def judge(V, cases, relevant, stats, family='', keep_traces=None, isolation=None
                          'mode': tr['mode'], 'src': tr['src'],
                          'timescale': cases[i].get('timescale'), 'multi': cases[i].get('multi'),
                          'root': cases[i].get('root', 'store'), 'dl_late': cases[i].get('dl_late', False),
-                         'share_ops': cases[i].get('share_ops', False), 'warmup': cases[i].get('warmup'), 'reapply': cases[i].get('reapply', False), 'store_split': cases[i].get('store_split'), 'feedback': cases[i].get('feedback'), 'source': cases[i].get('source'),
+                         'share_ops': cases[i].get('share_ops', False), 'warmup': cases[i].get('warmup'), 'reapply': cases[i].get('reapply', False), 'store_split': cases[i].get('store_split'), 'feedback': cases[i].get('feedback'), 'source': cases[i].get('source'), 'sibling': cases[i].get('sibling', False),
                          'clauses': ['%s:%s' % pn for pn in names]},
                         '+'.join(sorted({n for _, n in mine})),
                         detail='first rejected at source step %s' % step)
@@ -184,7 +185,7 @@ def judge(V, cases, relevant, stats, family='', keep_traces=None, isolation=None
                          'timescale': c.get('timescale'), 'root': c.get('root', 'store'),
                          'dl_late': c.get('dl_late', False), 'share_ops': c.get('share_ops', False),
                          'warmup': c.get('warmup'), 'reapply': c.get('reapply', False), 'store_split': c.get('store_split'),
-                         'feedback': c.get('feedback'), 'source': c.get('source'), 'source_lost': True, 'clauses': ['source-events-lost']},
+                         'feedback': c.get('feedback'), 'source': c.get('source'), 'sibling': c.get('sibling', False), 'source_lost': True, 'clauses': ['source-events-lost']},
                         'source-events-lost', detail=lost)
     stats['rejected'] = stats.get('rejected', 0) + len(rejected)
     # The taps are operators themselves: they change the operator graph (e.g. what a
@@ -205,7 +206,7 @@ def judge(V, cases, relevant, stats, family='', keep_traces=None, isolation=None
                          'pipe': json.dumps(tr['pipe'], sort_keys=True), 'mode': tr['mode'],
                          'src': tr['src'], 'timescale': c.get('timescale'), 'untapped': True,
                          'multi': c.get('multi'), 'root': c.get('root', 'store'), 'dl_late': c.get('dl_late', False),
-                         'share_ops': c.get('share_ops', False), 'warmup': c.get('warmup'), 'reapply': c.get('reapply', False), 'store_split': c.get('store_split'), 'feedback': c.get('feedback'), 'source': c.get('source'),
+                         'share_ops': c.get('share_ops', False), 'warmup': c.get('warmup'), 'reapply': c.get('reapply', False), 'store_split': c.get('store_split'), 'feedback': c.get('feedback'), 'source': c.get('source'), 'sibling': c.get('sibling', False),
                          'clauses': ['untapped-differs']}, 'untapped-differs',
                         detail='without inner taps: end=%s out=%s' % (u['end'], json.dumps(ends(u)[0])[:300]))
             stats['untapped_differs'] = stats.get('untapped_differs', 0) + 1
@@ -293,6 +294,8 @@ def replay(prop, path, relevant):
         case['feedback'] = w['feedback']
     if w.get('source'):
         case['source'] = w['source']
+    if w.get('sibling'):
+        case['sibling'] = True
     tr = run_case(case)
     if w.get('source_lost'):
         lost = source_lost(tr, case)
